@@ -678,6 +678,10 @@ CORPUS = [
     ('HIST choice 3', '(setitem-name 0 (py 5)) (setpos -1 (obj 7)) (getcomponent)'),
     ('HIST seqof 1 0', '(extend (py 1) (py 2) (py 3)) (getitem 5)'),                          # T5 (known finding)
     ('HIST rec 0 (r o (d 7))', '(setitem-name 0 (py 1)) (values) (eq (v 1) hole hole)'),      # T4 == after read (known finding)
+    # a record without declared component type grown past ten fields (the auto-generated names field-10, field-11 sort
+    # before field-2 as text): names, values and items stay in position order
+    ('HIST rec 0 ()', ' '.join('(setpos %d (obj %d))' % (i, i) for i in range(12)) + ' (keys) (values) (items) (len) (encode)'),
+    ('HIST rec 0 ()', ' '.join('(setpos %d (obj %d))' % (i, 20 - i) for i in range(13)) + ' (keys) (items) (clone 1) (keys) (encode)'),
     # positions filled back to front (the store's insertion order differs from the position order), then whole-container ops
     ('HIST seqof 1 0', '(setpos 2 (py 30)) (setpos 1 (py 20)) (setpos 0 (py 10)) (reverse) (iter) (encode)'),
     ('HIST seqof 0 1', '(setpos 2 (obj 3)) (setpos 1 (obj 2)) (setpos 0 (obj 1)) (reverse) (iter) (encode)'),
